@@ -1,16 +1,23 @@
 package mast
 
+var c08FormatIsV1 bool
+
 // checkStoreLog asserts the C08 clauses over everything a vStore has been asked to store.
 func checkStoreLog(st *vStore) {
 	for i := range st.names {
 		verifAssert("C08.name-is-hash-of-bytes", verifIsNameOf(st.names[i], st.blobs[i]))
+	}
+	verifAssert("C08.same-name-same-bytes", !st.conflict)
+	if c08FormatIsV1 {
+		return // the independent reader below knows the binary format only
+	}
+	for i := range st.names {
 		keys, vals, links, ok := refDecode(st.blobs[i])
 		verifAssert("C08.decodable", ok)
 		if ok {
 			verifAssert("C08.bytes-are-canonical-encoding", verifStrEq(string(refEncode(keys, vals, links)), string(st.blobs[i])))
 		}
 	}
-	verifAssert("C08.same-name-same-bytes", !st.conflict)
 	// child names embedded in written bytes are names under which a node was written
 	closed := true
 	for i := range st.blobs {
@@ -38,7 +45,10 @@ func HarnessC08a() {
 		cache = &vCache{}
 	}
 	cfg := symConfig(st, cache)
-	cur, err := NewRoot(&CreateRemoteOptions{BranchFactor: bf}).LoadMast(vctx, cfg)
+	fm := verifBoundOr("FMT", 0) // 0 binary, 1 v1marshaler (raw two-stage decode), 2 v1marshaler (registered types)
+	cfg.UnmarshalerUsesRegisteredTypes = fm == 2
+	c08FormatIsV1 = fm != 0
+	cur, err := NewRoot(&CreateRemoteOptions{BranchFactor: bf, NodeFormat: fmtOf(fm)}).LoadMast(vctx, cfg)
 	verifAssert("C01.new.err", err == nil)
 	md := &symModel{}
 	if n0 := verifBoundOr("N0", 0); n0 > 0 {
@@ -80,6 +90,7 @@ func HarnessC08a() {
 	// after a "restart" the cache is empty and fills by loading. One handle modifies a tree loaded
 	// from r1; r1 loaded again through the same cache must still have r1's contents and name.
 	cfg2 := symConfig(st, &vCache{})
+	cfg2.UnmarshalerUsesRegisteredTypes = fm == 2
 	if verifBoundOr("WRITERCACHE", 0) == 1 {
 		// no restart: the cache still holds the node objects the writer built in memory
 		cfg2 = cfg
